@@ -233,3 +233,11 @@ Definition TraverseSubjectSetExpansion (nid : N) (ns : bytes) (obj : uid) (rel :
 Definition exists_relation_in (nid : N) (ns : bytes) (obj : uid) (sub : isub) (rels : list bytes) (d : db) : bool :=
   existsb (fun r => in_net nid r && bytes_eqb (r_ns r) ns && uid_eqb (r_obj r) obj && isub_eqb (r_sub r) sub &&
                     existsb (bytes_eqb (r_rel r)) rels) (rows d).
+Lemma uid_eqb_sym a b : uid_eqb a b = uid_eqb b a.
+Proof. destruct (uid_eqb a b) eqn:E.
+ - apply uid_eqb_eq in E; subst; symmetry; apply uid_eqb_refl.
+ - symmetry; apply uid_eqb_neq; apply uid_eqb_neq in E; congruence. Qed.
+Lemma isub_eqb_sym a b : isub_eqb a b = isub_eqb b a.
+Proof. destruct (isub_eqb a b) eqn:E.
+ - apply isub_eqb_eq in E; subst; symmetry; apply isub_eqb_refl.
+ - symmetry. destruct (isub_eqb b a) eqn:E2; auto. apply isub_eqb_eq in E2; subst. rewrite isub_eqb_refl in E; discriminate. Qed.
